@@ -1,6 +1,6 @@
 (* C05 — per-block 30% limit on voting-power change for safe SetPower. *)
 From stdpp Require Import gmap.
-Require Import Model.Base Model.Validate Model.State Model.Staking Model.Slashing Model.Poa Model.App proofs.L1Effects proofs.InvHistory proofs.InvTotal proofs.InvCometTotal.
+Require Import Model.Base Model.Validate Model.State Model.Staking Model.Slashing Model.Poa Model.App proofs.L1Effects proofs.InvHistory proofs.InvTotal proofs.InvCometTotal proofs.InvBudget.
 
 (* a safe SetPower above height 1 succeeds only if the running sum (its own change included) is below
    30% of the cached total *)
@@ -78,3 +78,71 @@ Proof.
   intros g bs b c1 txs Hg w Hh Hht Eb. destruct (cached_total_is_previous_set_total g bs b c1 txs Hg Hh Hht Eb) as [H _].
   rewrite H. transitivity (last_total (stk (w_chain w))); [symmetry; exact (reachable_TL g bs Hg Hh)|exact (reachable_comet_total g bs Hg Hh)].
 Qed.
+
+(* ---- the running sum in closed form ----
+   In every block above height 1 of every history, after any prefix [txs] of the block's transactions, the sum PoA tests against
+   the limit is the uint64 sum of one non-negative term per SetPower / RemoveValidator message of the transactions that passed so
+   far, in order ([txs_spends]); the terms are spelled out by the three theorems that follow. *)
+Theorem C05_block_budget_is_the_sum_of_the_changes : forall g bs b c1 txs,
+  let w := run_world (init_world g) bs in
+  0 < height (w_chain w) ->
+  begin_block (with_clock (w_chain w) (height (w_chain w) + 1) (now (w_chain w) + b_dt b))
+              (match c_prev (w_comet w) with Some vs => sorted_votes vs | None => [] end) (b_absent b) (b_evidence b) = inl c1 ->
+  abs_changed (poa (fst (deliver_txs c1 txs))) = wrap_u64 (zsum (txs_spends c1 txs)) /\
+  Forall (fun d => 0 <= d) (txs_spends c1 txs).
+Proof. exact block_budget_is_the_sum_of_the_changes. Qed.
+
+(* the term of a message: an admission counts its whole new power, any other SetPower |new - held|, a removal what the validator
+   held — where "held" is the power of its tokens at that point of the block if it is bonded and not jailed, else 0; the unsafe flag
+   plays no part; no other kind of message has a term *)
+Theorem C05_budget_term_of_a_message : forall c m,
+  msg_spend c m =
+  match m with
+  | MSetPower _ v p _ =>
+      Some (match find_pending v (pending (poa c)) with
+            | Some _ => Z.abs (tokens_to_power (cast_i64 p))
+            | None => Z.abs (tokens_to_power (cast_i64 p) - held c v)
+            end)
+  | MRemoveValidator _ v => Some (Z.abs (tokens_to_power 0 - held c v))
+  | _ => None
+  end.
+Proof. intros c m. destruct m; reflexivity. Qed.
+
+Theorem C05_held_meaning : forall c val,
+  held c val = match vals (stk c) !! val with
+               | Some v => if status_eqb (v_status v) Bonded && negb (v_jailed v) then tokens_to_power (v_tokens v) else 0
+               | None => 0
+               end.
+Proof. reflexivity. Qed.
+
+(* a transaction that does not pass has no term; a passing single-message transaction has its message's term, taken in the state
+   the message ran in *)
+Theorem C05_failed_transaction_spends_nothing : forall c tx, snd (deliver_tx c tx) <> TPass -> tx_spends c tx = [].
+Proof. exact tx_spends_failed. Qed.
+
+Theorem C05_passing_transaction_spends_its_message : forall c m, snd (deliver_tx c [m]) = TPass ->
+  tx_spends c [m] = spend_list (msg_spend (bump_seqs c (dedup [msg_sender m])) m).
+Proof. exact tx_spends_single. Qed.
+
+Theorem C05_transactions_spend_in_order : forall c tx rest,
+  txs_spends c (tx :: rest) = tx_spends c tx ++ txs_spends (fst (deliver_tx c tx)) rest.
+Proof. reflexivity. Qed.
+
+(* non-vacuity: four validators of power 10 (total 40, so the limit is below 12). Block 2: +3 safe (passes, 3), a stranger's
+   SetPower (refused, nothing), a removal (10: removals are counted but not tested), +1 safe (3+10+1 = 14 >= 12: refused, nothing),
+   the same +1 unsafe (passes, 1). The sum is 14. *)
+Example C05_budget_witness :
+  let g := {| g_tokens := [10000000; 10000000; 10000000; 10000000]; g_max_vals := 10; g_unbond_secs := 30; g_window := 4;
+              g_min_signed_pc := 50; g_jail_secs := 5; g_slash_down_bp := 100; g_slash_dbl_bp := 500 |} in
+  let b0 := {| b_dt := 5; b_absent := []; b_evidence := []; b_txs := [] |} in
+  let txs := [[MSetPower admin_id 0 13000000 false]; [MSetPower 5 1 1000000 false]; [MRemoveValidator admin_id 2];
+              [MSetPower admin_id 1 11000000 false]; [MSetPower admin_id 1 11000000 true]] in
+  let w := run_world (init_world g) [b0] in
+  match begin_block (with_clock (w_chain w) (height (w_chain w) + 1) (now (w_chain w) + 5))
+                    (match c_prev (w_comet w) with Some vs => sorted_votes vs | None => [] end) [] [] with
+  | inl c1 => height (w_chain w) = 1 /\ cached_power (poa c1) = 40 /\
+              snd (deliver_txs c1 txs) = [TPass; TErr EPoaNotAnAuthority; TPass; TErr EPoaUnsafePower; TPass] /\
+              txs_spends c1 txs = [3; 10; 1] /\ abs_changed (poa (fst (deliver_txs c1 txs))) = 14
+  | inr _ => False
+  end.
+Proof. vm_compute. repeat split; reflexivity. Qed.
